@@ -342,8 +342,24 @@ int gethostname(char *buf, size_t len) {
     sut_write(buf, G.w.hostname.c_str(), n);
     return 0;
 }
+static char *sim_getcwd(char *buf, size_t size);
 char *getcwd(char *buf, size_t size) {
     if (!sim_active()) return REAL(getcwd)(buf, size);
+    return sim_getcwd(buf, size);
+}
+// glibc: $PWD verbatim when it names the same directory as ".", otherwise what the kernel says
+char *get_current_dir_name(void) {
+    if (!sim_active()) return REAL(get_current_dir_name)();
+    std::string pwd; bool same = false;
+    {
+        SimScope s; sim_step(); sim_event("get_current_dir_name");
+        t_in_sim--; const char *v = getenv("PWD"); t_in_sim++;
+        if (v && !G.w.cwd_errno) { pwd = v; const std::string &c = G.w.cwd; same = pwd == c || pwd == "." || pwd == c + "/." || pwd == "/proc/self/cwd" || pwd == "/proc/" + std::to_string(G.w.pid) + "/cwd"; }
+    }
+    if (same) { char *r = (char *)malloc(pwd.size() + 1); if (r) { SimScope s; sut_write(r, pwd.c_str(), pwd.size() + 1); } return r; }
+    return sim_getcwd(nullptr, 0);
+}
+static char *sim_getcwd(char *buf, size_t size) {
     SimScope s; sched_point(SP_IO); sim_step();
     Fault f; bool faulted = sim_fault("getcwd", f);
     Ev &e = sim_event("getcwd"); e.a = (long)size;
